@@ -1,17 +1,193 @@
-"""C02 no stale value survives any edit — tie of Exec/Model.v + oracle; see execprops.py"""
+"""C02 no stale value survives any edit — tie of Exec/Model.v + oracle; see execprops.py
+
+WIDE class ((P) only, NOT tied to the Coq model; generator harness/c02widelib.py, driver drivers/c02wide.py; 150
+histories quick / 2000 thorough from a generator seeded after the model-tied cases were drawn, so those are unchanged):
+the vocabulary Exec/Model.v does not have - several static spaces (some nested), inheritance (bases at creation,
+add_bases / remove_bases, diamonds), space-valued references (`O1.f0(x)`, `O1.k`, `O1.Ch.k`), model-level references by
+name and through a space (`O1.g`), shadowing / un-shadowing of a model-level reference in a space, one parametrised space
+whose ItemSpaces [1] [2] (and their child spaces) read the same things, creation / deletion / renaming of cells and
+spaces, parameter-formula changes, allow_none / is_cached flags, input values - interleaved with evaluations.
+Oracle: at comparison points (after every edit / after about half of them / at three edits, by history, and at the end)
+a FRESH model replays the edits of the history so far and nothing else; every edit must have had the same outcome in
+both ("edit diverged" otherwise); every cells of every static space and of the ItemSpaces [1] [2] of every
+parametrised space is asked over the argument grid 0 1 2 in both models and must give the same value or exception
+class ("stale value" otherwise, minimised, with a stand-alone script).  corpus/C02/wide_*.json: directed histories of
+this class (among them the three repaired defects shadow_global_attr, rederived_ref_attr and the skipped dynamic copy).
+
+Known defects found by this class (findings.d/C02.txt, reproducers findings.d/C02_wide_<n>.py, witnesses
+corpus/C02/finding_wide_<n>.json replayed on every run); the generator does not draw their trigger (decidable
+predicates on its mirror of the definitions, counted in distribution.wide_class_P_only.not_drawn):
+  C02_wide_1  a value that read a MODEL-LEVEL reference through a space by attribute path (`O.g`, `O.Ch.g`) survives the
+              deletion of that space (or of a space containing it) and the renaming of the child space on the path; so
+              does a value that called an UNCACHED cells through the renamed child space (`O.Ch.f(1)`): the spaces on an
+              attribute path are no precedents
+  C02_wide_2  add_bases that makes a space derive a reference which shadows a model-level one leaves the values that
+              read the model-level reference through that space (`O.g`)
+  C02_wide_3  cells.allow_none = ... on a cells of a parametrised space does not reach the copies of the cells in the
+              ItemSpaces that exist (they are not discarded): P[2].f(2) still raises NoneReturnedError
+  C02_wide_4  switching allow_none off (cells, space or model) leaves the None values computed while it was on, and
+              what was computed from them
+"""
+import os, json, glob, random, collections
+import fw
 import execprops as E
+import c02widelib as WL
 
 EXTRA_MODS = ["Exec.Check"]
 ORACLES = [E.oracle_spec_values]
 ASSUMPTIONS = ["formula vocabulary of Exec/Model.v (integers/None, calls, references by name/attribute, conditional, try/except, raising expressions)",
-               "CPython evaluation order, inspect.Signature.bind, traceback line numbers are modelled, exercised by the correspondence"]
+               "CPython evaluation order, inspect.Signature.bind, traceback line numbers are modelled, exercised by the correspondence",
+               "wide class (several spaces, inheritance, space-valued references and attribute paths through them, model-level references and "
+               "their shadowing, ItemSpaces, creation / deletion / renaming of cells and spaces, parameter formulas, flags): judged by the (P) "
+               "oracle only (live model against a model that replayed only the edits: same edit outcomes, same definitions, same answer of "
+               "every cells over the grid); no Coq model covers it; ItemSpaces [1] [2] only, formulas of one expression over small integers, "
+               "call graph acyclic by construction (ranked cells names), no evaluation through kept handles; the triggers of the known "
+               "findings C02_wide_1 ... C02_wide_4 are not drawn; a history is cut where the library's answer to an edit is not the one "
+               "the generator's mirror foresaw (counted)"]
+CORPUS = os.path.join(fw.VERIF, "corpus", "C02")
+WIDE_WITNESSES = [
+    ("C02_wide_1", "finding_wide_1.json",
+     "a value that read a model-level reference through a space by attribute path (O.g, O.Ch.g) survives the deletion of that space "
+     "and the renaming of the child space on the path"),
+    ("C02_wide_2", "finding_wide_2.json",
+     "add_bases deriving a reference that shadows a model-level one leaves the values that read the model-level reference through that space"),
+    ("C02_wide_3", "finding_wide_3.json",
+     "allow_none set on a cells of a parametrised space does not reach its copies in the ItemSpaces that exist"),
+    ("C02_wide_4", "finding_wide_4.json",
+     "switching allow_none off leaves the None values computed while it was on"),
+]
 
 
 def run(tier, seed, rng):
-    return E.run_exec_property("C02", tier, rng, 110, 2000, {'alt': [(0.4, {'p_raise': 0.15, 'p_try': 0.4})], 'p_derived': 0.3, 'maxdepth': (30, 60), 'p_ref': 0.35}, {'eval': 6, 'setv': 2, 'clearat': 1, 'clear': 1, 'clearall': 1, 'setf': 2, 'setcached': 1, 'scn_ref': 1, 'setref': 3}, (10, 30), ORACLES,
+    out = E.run_exec_property("C02", tier, rng, 110, 2000, {'alt': [(0.4, {'p_raise': 0.15, 'p_try': 0.4})], 'p_derived': 0.3, 'maxdepth': (30, 60), 'p_ref': 0.35}, {'eval': 6, 'setv': 2, 'clearat': 1, 'clear': 1, 'clearall': 1, 'setf': 2, 'setcached': 1, 'scn_ref': 1, 'setref': 3}, (10, 30), ORACLES,
         'worlds with references read by name and by attribute path (own space, other space, model level, through uncached cells); histories interleaving evaluations with value, formula, flag and reference edits; compared with a model that replayed only the edits, at the end and at a random cut' + "; non-trivial = an edit and a later cache hit; distinct by JSON of the case",
         lambda c, r: any(op[0] in ('setref','setf','setv','setcached') for op in c['ops']) and any(ob['out'][0]=='val' and not ob['log'] for ob in r['obs']), diff=E.oracle_no_stale)
+    # wide class ((P) only): its own generator, seeded after every draw of the model-tied cases
+    run_wide(out, tier, random.Random(rng.getrandbits(64)))
+    return out
+
+
+# --------------------------------------------------------------------------
+# wide class
+# --------------------------------------------------------------------------
+def wide_payload(case, f):
+    ops = f.get("minimal_ops") or [WL.strip(o) for o in case["ops"]]
+    return {"case": {"wide": True, "ops": ops}, "failure_kind": f["kind"],
+            "detail": "wide class, %s: %s" % (f["kind"], f.get("minimal_detail") or f["detail"]),
+            "first_seen": f["detail"], "minimised": "minimal_ops" in f, "operations_before_minimising": len(case["ops"]),
+            "script": f.get("script", "")}
+
+
+def path_tags(op, name, item):
+    """kinds of dependency path (generator's mirror) from the edited object to the cells [name] that lost a value"""
+    paths = op.get("paths") or {}
+    tags = list(paths.get(name, []))
+    if item:
+        for k, v in paths.items():
+            if k.endswith("._pf") and (name + ".").startswith(k[:-3]):
+                tags += v
+    if not tags:
+        own = ".".join(op.get("p") or []) + "." + str(op.get("name"))
+        if name == own or (op["op"] == "rencells" and name == ".".join(op["p"]) + "." + op["to"]):
+            tags = ["(the edited cells itself)"]
+        elif op["op"] in ("renspace", "delspace", "sflag") and (name + ".").startswith(".".join(op["p"]) + "."):
+            tags = ["(cells inside the renamed / deleted / re-flagged space)"]
+        else:
+            tags = ["(no direct path: a caller further up, or a wholesale clear - re-inheritance, discarded ItemSpace)"]
+    return [t + (" [held in an ItemSpace]" if item else "") for t in tags]
+
+
+def run_wide(out, tier, rng):
+    import time
+    t0 = time.time()
+    n = 150 if tier == "quick" else 2000
+    corpus = []
+    for p in sorted(glob.glob(os.path.join(CORPUS, "wide_*.json"))):
+        d = json.load(open(p))
+        corpus.append(dict(d["case"], name=os.path.basename(p)))
+    cases = corpus + [dict(WL.gen_case(rng), generated=True) for _ in range(n)]
+    witnesses = []
+    for key, fname, text in WIDE_WITNESSES:
+        p = os.path.join(CORPUS, fname)
+        if os.path.exists(p):
+            witnesses.append((key, text, json.load(open(p))["case"]))
+    jobs = cases + [dict(w[2], minimise=False) for w in witnesses]
+    res = fw.run_driver("c02wide", jobs, chunk=10 if tier == "quick" else 40)
+    wres, res = res[len(cases):], res[:len(cases)]
+
+    for c, r in zip(cases, res):
+        for f in r["pfail"]:
+            out.p_failures.append(wide_payload(c, f))
+    for (key, text, wc), r in zip(witnesses, wres):
+        fails = bool(r["pfail"])
+        fw.witness_result(out, "C02", key, fails, text + (" -- " + r["pfail"][0]["detail"] if fails else ""),
+                          {"case": wc, "script": r["pfail"][0].get("script", "") if fails else ""})
+        if not fails:
+            out.notes.append("wide class: witness of %s passes (defect repaired in /repo or no longer reproducible)" % key)
+
+    tot, kinds, setup_kinds, feats, modes, notdrawn, tags = (collections.Counter() for _ in range(7))
+    invalidating = set()
+    nops = 0
+    for i, (c, r) in enumerate(zip(cases, res)):
+        tot.update(r["stats"])
+        nops += len(r["outs"])
+        feats.update(c.get("features", []))
+        modes[c.get("mode", "corpus")] += 1
+        notdrawn.update(c.get("notes", {}))
+        for j, op in enumerate(c["ops"]):
+            if op.get("kind") and j < len(r["outs"]):
+                (setup_kinds if j < c.get("setup", 0) else kinds)[op["kind"]] += 1
+        for idx, lost in r["lost"].items():
+            op = c["ops"][int(idx)]
+            tot["edits_that_invalidated_a_held_value"] += 1
+            tot["cells_that_lost_held_values"] += len(lost)
+            if int(idx) >= c.get("setup", 0):
+                invalidating.add(i)
+            for name, item in lost:
+                tags.update(path_tags(op, name, item))
+    answers = {k[8:]: v for k, v in tot.items() if k.startswith("answers:")}
+    outcomes = {k[14:]: v for k, v in tot.items() if k.startswith("edit_outcomes:")}
+    unforeseen = {k[11:]: v for k, v in tot.items() if k.startswith("unforeseen:")}
+    out.distribution["wide_class_P_only"] = {
+        "histories": len(cases), "corpus_histories": len(corpus), "comparison_modes": dict(modes),
+        "operations": nops, "evaluations_in_histories": tot["evaluations"], "edits": tot["edits"],
+        "comparison_points": tot["comparison_points"], "comparisons(answers of live and edits-only model)": tot["comparisons"],
+        "answers_compared": answers, "edit_outcomes": outcomes,
+        "edit_kinds(history part)": dict(sorted(kinds.items())), "edit_kinds(world set-up part)": dict(sorted(setup_kinds.items())),
+        "worlds_with": dict(feats),
+        "edits_that_invalidated_a_held_value": tot["edits_that_invalidated_a_held_value"],
+        "cells_that_lost_held_values_at_an_edit": tot["cells_that_lost_held_values"],
+        "histories_in_which_an_edit_invalidated_a_cached_value": len(invalidating),
+        "dependency_paths_between_the_edited_object_and_a_value_held_before_the_edit": dict(sorted(tags.items())),
+        "not_drawn": dict(notdrawn),
+        "histories_cut:edit_outcome_not_foreseen_by_the_generator": tot["histories_cut:edit_outcome_not_foreseen_by_the_generator"],
+        "unforeseen_edit_outcomes": unforeseen,
+        "histories_stopped:definitions_differ_after_an_edit_both_refused": tot["stopped:definitions_differ_after_an_edit_both_refused"],
+        "histories_stopped:definitions_differ_but_no_answer_does": tot["stopped:definitions_differ_but_no_answer_does"],
+        "definitions_that_differed": {k[19:]: v for k, v in tot.items() if k.startswith("definitions_differ:")},
+        "witnesses_of_known_findings_replayed": [w[0] for w in witnesses], "wall_s": round(time.time() - t0, 1)}
+    out.evaluations += len(cases)
+    out.distinct_nontrivial += len({json.dumps([WL.strip(o) for o in cases[i]["ops"]], sort_keys=True) for i in invalidating})
+    out.rule += (".  WIDE class ((P) only): worlds of 2-4 static spaces (nested children, bases, diamonds), one parametrised space, integer and "
+                 "space-valued references at space and model level, 1-3 cells per space reading them by name / attribute path / calls through "
+                 "space references; histories of 12-26 operations after the set-up (half evaluations; edits: values, formulas, new / deleted / "
+                 "renamed cells and spaces, references new / changed / deleted / shadowing / un-shadowing, add_bases / remove_bases, parameter "
+                 "formula, flags) compared with an edits-only replay at >= 4 points; non-trivial = an edit of the history part invalidated a "
+                 "value held before it")
+    out.notes.append("wide class: %d histories, (P) only - outside Exec/Model.v (no theorem covers it); not drawn (known findings "
+                     "C02_wide_1 ... C02_wide_4): %s; histories cut at an edit outcome the generator's mirror did not foresee: %d"
+                     % (len(cases), json.dumps(dict(notdrawn), sort_keys=True), tot["histories_cut:edit_outcome_not_foreseen_by_the_generator"]))
+    gen = [c for c in cases if c.get("generated")]
+    if gen:
+        out.samples.append({"wide": True, "ops": [WL.render(o) if o["op"] != "sweep" else "<compare>" for o in gen[0]["ops"][gen[0]["setup"]:][:14]] + ["..."]})
 
 
 def replay(data):
+    case = data["case"] if "case" in data else data
+    if isinstance(case, dict) and case.get("wide"):
+        r = fw.run_driver("c02wide", [dict(case, minimise=False)])[0]
+        for op, o in zip([o for o in case["ops"]], r["outs"]):
+            print(WL.render(op) if op["op"] != "sweep" else "<compare with the edits-only replay>", "->", o)
+        print(json.dumps([{k: v for k, v in f.items() if k != "script"} for f in r["pfail"]], indent=1))
+        return 1 if r["pfail"] else 0
     return E.replay_exec("C02", data, ORACLES)
